@@ -7,7 +7,8 @@ nothing the previous state references is overwritten, truncated or unlinked befo
 write of the meta page):
 
 * `ln` / `bbn` page writes only to pages that are on the previous state's free list (mark 4), unreferenced,
-  or at / beyond its allocation frontier; never to a node, overflow page or free-list page of that state;
+  or at / beyond its allocation frontier; never to a node, overflow page or free-list page of that state; for `bbn`
+  also never to an unreferenced (mark 0) page below the frontier, because the reconstruction rule reads those;
 * `ln` / `bbn` are never shrunk;
 * no hash-table write at all (the table is only touched after the meta page is durable; until then the
   new pages live in the redo log `wal`, which may be rewritten freely);
@@ -56,6 +57,17 @@ def pageCheck (what : String) (marks : Array UInt8) (bump : Nat) (st : Placement
     .error s!"{what}: page {pn} is overwritten before the switch-over although the previous state uses it as {markName marks[pn]!} (site {e.site})"
   else .ok { st with toFreePages := st.toFreePages + 1 }
 
+/-- a `bbn` page write before the switch-over: as `pageCheck`, and additionally never to an UNCLAIMED page (mark 0) below the
+previous frontier.  The reconstruction rule (`liveBranches`, mirror of `beatree/ops/reconstruction.rs`) reads EVERY `bbn` page
+below `bbn_bump` that the free list does not track — a never-written page below the frontier is read and found empty; were it
+written before the switch-over, the old manifest would see one more branch node (`Store/FrameImage.lean`).  The allocator
+hands out only pages of the free list or at / beyond the frontier, so no real trace does this. -/
+def pageCheckBbn (marks : Array UInt8) (bump : Nat) (st : PlacementStats) (e : IoEv) : Except String PlacementStats :=
+  let pn := e.offset / PAGE
+  if pn != 0 && decide (pn < bump) && marks[pn]! == 0 then
+    .error s!"bbn: page {pn} below the previous frontier is written before the switch-over although the previous state neither uses it nor lists it as free — the reconstruction rule reads every such page (site {e.site})"
+  else pageCheck "bbn" marks bump st e
+
 /-- check one pre-switch-over event against the previous state -/
 def checkEv (lnMarks bbnMarks : Array UInt8) (lnBump bbnBump lnSize bbnSize : Nat) (st : PlacementStats) (e : IoEv) :
     Except String PlacementStats :=
@@ -63,7 +75,7 @@ def checkEv (lnMarks bbnMarks : Array UInt8) (lnBump bbnBump lnSize bbnSize : Na
   if e.kind == "Write" && e.file == "ln" then
     (pageCheck "ln" lnMarks lnBump st e).map (fun s => { s with lnWrites := s.lnWrites + 1 })
   else if e.kind == "Write" && e.file == "bbn" then
-    (pageCheck "bbn" bbnMarks bbnBump st e).map (fun s => { s with bbnWrites := s.bbnWrites + 1 })
+    (pageCheckBbn bbnMarks bbnBump st e).map (fun s => { s with bbnWrites := s.bbnWrites + 1 })
   else if e.kind == "SetLen" && e.file == "ln" then
     if e.offset < lnSize then .error s!"ln is shrunk to {e.offset} bytes before the switch-over" else .ok st
   else if e.kind == "SetLen" && e.file == "bbn" then
